@@ -3,12 +3,26 @@
 A  proof step: Rpft.Props.C14 (json_roundtrip, xlsx_sanitize_id, sanitize_idem, csv_read_id,
    formats_agree, convert_then_compile, c14_partial + negative witnesses) over the hand model
    Rpft/Sheets.lean of `_sanitize`, `to_json`/`table.dict`, `JSONSheetReader`/`table.dict = …`
-   and tablib's CSV record loop.
+   and tablib's CSV record loop; and the CSV BYTE FORMAT (Rpft/Csv.lean: csv.writer dialect,
+   newline='' line iteration, the csv.reader automaton with its field limit, UTF-8) with
+   csv_read_write / writeCsv_injective / csv_reader_grammar / csv_read_write_dialect /
+   csv_file_roundtrip for ALL grids.
 B  tie: (1) every generated sheet through the model (`sheets.all`) vs what the REAL readers
    return for the three formats and vs the JSON the real `convert_to_json` writes;
    (2) `_sanitize`, `table.dict`, `JSONSheetReader` called directly on generated grids with
    `None`s, trailing/inner `None` headers, typed cells, over-wide rows, ragged JSON rows;
-   (3) the kernel-checked witnesses of Props/C14 replayed on the real code.
+   (3) the kernel-checked witnesses of Props/C14 replayed on the real code;
+   (4) CSV byte format: model writer vs real csv.writer text (4 dialects) and model reader vs real
+   csv.reader on the real writer's text — exhaustively for small grids over {a , " CR LF space é}
+   and for random larger ones; model reader + line iterator vs real on EVERY text of length ≤ 5
+   (quick) / ≤ 6 (thorough) over that alphabet and on hand-made unusual texts; model load_csv vs
+   the project's load_csv on file bytes (tablib exports, harness-written files, mutated and
+   non-UTF-8 files); UTF-8 codec; the field limit at 131072 / 131073; the dialect constants;
+   (5) JSON: model encodeString vs json.dumps(ensure_ascii=False) and model scanStr vs
+   json.decoder.scanstring (exhaustive short inputs + random escape sequences); model json.loads
+   vs real on every text of length ≤ 5 / ≤ 6 over { } [ ] " : , space a LF; model to_json text ==
+   the real convert output and model JSONSheetReader == real reader on those bytes (every
+   workbook of the read stream) and on foreign-style / damaged JSON files.
 C  direct oracle: workbooks written by the harness as CSV folder (Python `csv`), XLSX
    (openpyxl, text cells) and JSON (real `convert_to_json` from the CSV AND from the XLSX) must
    be read by `create_sheet_reader(fmt, path).sheets` into exactly what was written, cell by
@@ -30,10 +44,10 @@ import tempfile
 from .. import core, par
 
 MANIFEST = dict(
-    text="Proof (partial): Lean theorems json_roundtrip (to_json then JSONSheetReader is the identity on rectangular sheets with distinct headers and at least one row), xlsx_sanitize_id / xlsx_sanitize_grid (XLSXSheetReader._sanitize is the identity on what openpyxl delivers for rectangular text sheets with non-empty headers and no all-empty row), sanitize_idem (for every grid), csv_read_id (tablib's CSV record loop), formats_agree / c14_partial (the three readers deliver the same sheet, relative to the byte formats being faithful) and convert_then_read / convert_then_compile (convert followed by compilation = compiling the source, for any compiler that is a function of the sheets), each hypothesis shown necessary by a kernel-checked witness that is replayed on the real code. The quantifier over cell contents and the byte formats (csv / openpyxl / tablib / json) is carried by the harness: generated workbooks (1-6 sheets, 1-15 rows, unique non-empty headers, empty cells, commas, quotes, newlines, | ; \\, leading = and ', numeric- and boolean-looking text, leading/trailing blanks, non-ASCII and astral characters) are written as CSV folder, XLSX and JSON (real convert_to_json from both), read back by the real readers and compared cell by cell with what was written and with the model; compilable workbooks are compiled by the real create_flows from every format and compared up to invented UUIDs.",
+    text="Proof (partial): Lean theorems json_roundtrip (to_json then JSONSheetReader is the identity on rectangular sheets with distinct headers and at least one row), xlsx_sanitize_id / xlsx_sanitize_grid (XLSXSheetReader._sanitize is the identity on what openpyxl delivers for rectangular text sheets with non-empty headers and no all-empty row), sanitize_idem (for every grid), csv_read_id (tablib's CSV record loop), and — the CSV byte format being inside the model (Python csv.writer with the excel dialect tablib uses, text-file line iteration with newline='', the csv.reader state machine with its 131072-character field limit, UTF-8) — csv_read_write (reader(writer(records)) = records for ALL lists of records: any shape, empty records, cells with commas, quotes, CR, LF, any Unicode, up to the field limit), writeCsv_injective (unconditional), csv_reader_grammar (the reader is correct on every text of the CSV grammar: CRLF or LF records, each field quoted-with-doubled-quotes or plain), csv_read_write_dialect (LF / QUOTE_ALL writers; the LF+QUOTE_MINIMAL writer of CPython 3.12 needs CR-free cells: lf_minimal_loses_cr), csv_file_roundtrip (tablib export -> UTF-8 bytes -> load_csv is the identity on rectangular sheets with a header), csv_read_write_iff / csv_unfit_raises / csv_reader_total / loadCsv_errors (the guard is exact; on every text the only failures are the field limit, non-UTF-8 bytes and tablib's InvalidDimensions), and — the JSON byte format being inside the model too (json.dumps(ensure_ascii=False, indent=2) and json.loads for strings / arrays / objects, the book value of to_json, text-mode reading, the JSONSheetReader loop) — json_string_roundtrip (string literals, every string), json_document_roundtrip (loads(dumps(v)) = v for every value with distinct keys), json_file_roundtrip (to_json -> UTF-8 bytes -> JSONSheetReader is the identity on workbooks of rectangular sheets with distinct headers, at least one row and distinct names), formats_agree / c14_partial (the three readers deliver the same sheets: proved for the CSV and JSON bytes, relative to the XLSX byte format being faithful) and convert_then_read / convert_then_compile (convert followed by compilation = compiling the source, for any compiler that is a function of the sheets), each hypothesis shown necessary by a kernel-checked witness that is replayed on the real code. The model of the csv library is tied to the real csv module on every run (exhaustive small grids and texts over {a , \" CR LF space e-acute}, random larger grids, hand-made unusual texts, mutated and non-UTF-8 files through the project's load_csv, the field limit at its real value), the model of the json library to json.dumps / json.decoder.scanstring / json.loads / the real convert output and JSON reader (exhaustive short strings and texts, random escape sequences, every real convert output of the run byte for byte, foreign-style and damaged JSON files). The quantifier over cell contents for the XLSX byte format (openpyxl / tablib) is carried by the harness: generated workbooks (1-6 sheets, 1-15 rows, unique non-empty headers, empty cells, commas, quotes, newlines, | ; \\, leading = and ', numeric- and boolean-looking text, leading/trailing blanks, non-ASCII and astral characters) are written as CSV folder, XLSX and JSON (real convert_to_json from both), read back by the real readers and compared cell by cell with what was written and with the model; compilable workbooks are compiled by the real create_flows from every format and compared up to invented UUIDs.",
     ref="§5 C14",
-    note="PARTIAL: the byte formats are library code (Python csv, openpyxl, tablib import/export, json) and are exercised, not modelled; the repo's own post-processing is modelled and proved. Trusts: Lean kernel (axioms audited each run), harness writers (csv.writer / openpyxl text cells) and Driver JSON codec. Known findings: F-C14-a (all-empty row kept by CSV/JSON, dropped by XLSX: a compile differs), F-C14-b (header-only sheet loses its headers through convert: JSON compile crashes). (F-C14-c, CR/CRLF in CSV cells, was fixed in /repo.)",
-    technique="Lean 4 proof of the readers' post-processing (induction over the row loops) + generated three-format differential run on the real readers and compiler",
+    note="PARTIAL: the XLSX byte format is library code (openpyxl zip + XML, tablib xlsx import) and is exercised, not modelled; the CSV byte format (csv.writer / csv.reader / line iteration / UTF-8) and the JSON byte format (json.dumps with indent / json.loads restricted to strings, arrays and objects / text-mode reading) ARE modelled, proved to round-trip (all grids / all workbooks in the domain) and tied to the real csv and json modules; the repo's own post-processing is modelled and proved. Trusts: Lean kernel (axioms audited each run), that the Lean models of CPython's _csv.c, _json.c / json.encoder and text-file reading are faithful beyond the exhaustively and randomly compared inputs (the interpreter's recursion limit for deeply nested JSON is not modelled), harness writers (openpyxl text cells) and Driver JSON codec. Known findings: F-C14-a (all-empty row kept by CSV/JSON, dropped by XLSX: a compile differs), F-C14-b (header-only sheet loses its headers through convert: JSON compile crashes). (F-C14-c, CR/CRLF in CSV cells, was fixed in /repo.)",
+    technique="Lean 4 proof of the readers' post-processing (induction over the row loops) and of the CSV and JSON byte formats (csv.writer / csv.reader automaton: invariant over records, fields and characters of a machine fusing the line iterator with the reader; json.dumps / json.loads: mutual structural induction over values, elements and members with a fuel-indexed recursive-descent reader) + exhaustive/random differential tie of those models against the real csv and json modules + generated three-format differential run on the real readers and compiler",
 )
 
 # --------------------------------------------------------------------------- cell / header pools
@@ -253,6 +267,13 @@ def model_table(ans):
     return {"__err__": ans.get("err", ans.get("__error__"))}
 
 
+def model_book(ans):
+    """{"ok": [{"name","headers","rows"}…]} → same shape as read_sheets"""
+    if isinstance(ans, dict) and "ok" in ans:
+        return {t["name"]: {"headers": (t["headers"] or None), "rows": t["rows"]} for t in ans["ok"]}
+    return {"__err__": (ans.get("err") or ans.get("__error__")) if isinstance(ans, dict) else str(ans)}
+
+
 # --------------------------------------------------------------------------- worker: read identity + tie
 
 
@@ -348,6 +369,57 @@ def read_worker(seeds):
                              "rows": [[(c or None) for c in r] + [None] * pc for r in s["rows"]] + [[None] * width] * pr})
                 owners.append((wi, None))
         answers = drv.results(reqs)
+        # B (bytes): the CSV files the harness wrote (CRLF / LF, minimal / full quoting), byte for byte
+        # through the model's load_csv (UTF-8 -> lines -> csv.reader automaton -> tablib loop)
+        reqs2, owners2 = [], []
+        for wi, (sheets, texts, got_by, seed) in enumerate(pending):
+            for s in sheets:
+                with open(os.path.join(tmp, "w%d" % wi, "csv", s["name"] + ".csv"), "rb") as f:
+                    reqs2.append({"op": "csv.load", "bytes": list(f.read())})
+                owners2.append((wi, s))
+        for (wi, s), ans in zip(owners2, drv.results(reqs2)):
+            real = pending[wi][2]["csv"]
+            real_t = real.get(s["name"]) if "__exc__" not in real else {"__exc__": real["__exc__"]}
+            mt = model_table(ans) if isinstance(ans, dict) else ans
+            count("csv_bytes_through_model_load_csv")
+            if mt != real_t and len(out["ties"]) < 10:
+                out["ties"].append({"what": "model load_csv on the written CSV bytes and real CSV reader differ", "sheet": s, "style": styles[wi], "model": mt, "real": real_t, "seed": pending[wi][3]})
+        # B (bytes): the JSON text the real convert wrote — model to_json text == real text, and the
+        # model's JSONSheetReader on those bytes == the real JSON reader
+        reqs3, owners3 = [], []
+        for wi, (sheets, texts, got_by, seed) in enumerate(pending):
+            by_name = {s["name"]: s for s in sheets}
+            for label in ("json<csv", "json<xlsx"):
+                if texts[label] is None:
+                    continue
+                try:
+                    order = list(json.loads(texts[label])["sheets"].keys())
+                except Exception:  # noqa: BLE001
+                    continue
+                if sorted(order) != sorted(by_name):
+                    continue        # a read difference: reported by C above
+                reqs3.append({"op": "jsontext.dumpbook", "sheets": [by_name[n] for n in order]})
+                owners3.append((wi, label, "dump"))
+                reqs3.append({"op": "jsontext.loadbook", "bytes": list(texts[label].encode("utf-8"))})
+                owners3.append((wi, label, "load"))
+        for (wi, label, what), ans in zip(owners3, drv.results(reqs3)):
+            sheets, texts, got_by, seed = pending[wi]
+            count("json_bytes_through_model_" + what)
+            if what == "dump":
+                if ans != texts[label]:
+                    # same VALUE in another representation (indentation, separators, \\uXXXX escapes)?  Then the
+                    # writer's formatting changed, which the property does not care about: the model reader
+                    # on the real bytes (next request) and the C oracle carry the claim; recorded, not alarmed
+                    both = drv.results([{"op": "jsontext.loads", "text": ans}, {"op": "jsontext.loads", "text": texts[label]}]) if isinstance(ans, str) else [0, 1]
+                    if both[0] == both[1] and isinstance(both[0], dict) and "ok" in both[0]:
+                        count("json_writer_text_differs_same_value")
+                    elif len(out["ties"]) < 10:
+                        out["ties"].append({"what": f"model to_json text and real convert_to_json text ({label}) differ", "workbook": sheets, "model": str(ans)[:600], "real": texts[label][:600], "seed": seed})
+            else:
+                real = got_by[label]
+                mt = model_book(ans)
+                if mt != real and len(out["ties"]) < 10:
+                    out["ties"].append({"what": f"model JSONSheetReader on the convert output ({label}) and real JSON reader differ", "workbook": sheets, "model": str(mt)[:600], "real": str(real)[:600], "seed": seed})
         json_pairs_cache = {}
         prev = None
         for (wi, s), ans in zip(owners, answers):
@@ -574,6 +646,712 @@ def direct_worker(seeds):
             model = ans if kind == "tojson" else (model_table(ans) if isinstance(ans, dict) else ans)
             if model != real and len(out["ties"]) < 10:
                 out["ties"].append({"what": f"direct tie {kind}: model and real differ", "input": inp, "model": model, "real": real})
+    finally:
+        shutil.rmtree(tmp, ignore_errors=True)
+    return out
+
+
+# --------------------------------------------------------------------------- CSV byte format: model (Rpft/Csv.lean) vs the real csv module / file iteration / codec
+
+CSV_ALPHA = ["a", ",", "\"", "\r", "\n", " ", "é"]
+CSV_STYLES = [("\r\n", False), ("\r\n", True), ("\n", False), ("\n", True)]
+
+# unusual-but-legal (or merely tolerated) texts; the first block is kernel-checked in Props/C14
+# (csv_reader_quirks, needs_validRow, csv_blank_line_vs_blank_row, lf_minimal_loses_cr)
+CSV_HANDMADE = [
+    "a,b\nc,d", "a\rb\r", "a,\"b\nc", "\"a\"b,\"c\" \n", "a\"b, \"c\"\n", "x\r\r\ny",
+    "a\rb\n", "\"a,b\n", "\n", "a,b\r\n\r\n1,2\r\n", "a,b\r\n,\r\n1,2\r\n", "a\r\n\"\"\r\n1\r\n",
+    "", "\r", "\r\n", "\n\r", "\r\r\n", "\"", "\"\"", "\"\"\"", "\"\"\"\"", "a,\"", "\"a\"\"", "\"a\"\"\"", "\"a\r\"\n\"",
+    "\"a\",\"b\"\r\n\"c\",\"d\"\r\n", "\"say \"\"hi\"\"\",x\n", "\"l1\r\nl2\",\"l3\rl4\",\"l5\nl6\"\r\n",
+    "a,b\n1\n1,2,3\n", ",\n", ",,\n,,", "a,\n", " a , b \n", " \"a\",b\n", "\"a\" ,b\n", "\"a\"x\"b\"\n",
+    "\ufeffa,b\n1,2\n", "a\x00b\n", "a\u2028b,c\u0085d\x0b\x0c\x1c\n", "é,日本,\U0001F600\r\n", "a\tb\n", "a;b\n", "'a,b'\n",
+    "\"a\"\r\r\nb", "a\r\n\r\n\r\nb\r\n", "\"\",\"\"\n", "\"\n\"\n", "\"\r\"\r", "x,\"\r\n\"\r\ny", "\"a\"\n\"b\"", "a,b\r", "a,b\r\nc",
+]
+
+
+def real_csv_write(recs, lt, qa) -> str:
+    buf = io.StringIO()
+    w = csv.writer(buf, delimiter=",", lineterminator=lt, quoting=csv.QUOTE_ALL if qa else csv.QUOTE_MINIMAL)
+    for r in recs:
+        w.writerow(r)
+    return buf.getvalue()
+
+
+def csv_err_name(e: Exception) -> str:
+    m = str(e)
+    if isinstance(e, UnicodeDecodeError):
+        return "decode"
+    if "field larger than field limit" in m:
+        return "fieldLimit"
+    if "new-line character seen in unquoted field" in m:
+        return "newlineInUnquoted"
+    n = type(e).__name__
+    return n[0].lower() + n[1:]
+
+
+def real_csv_read(text: str):
+    """what `csv.reader` yields for a file opened with newline="" (tablib's call: delimiter=",")"""
+    try:
+        return {"ok": [list(r) for r in csv.reader(io.StringIO(text, newline=""), delimiter=",")]}
+    except csv.Error as e:
+        return {"err": csv_err_name(e)}
+
+
+def real_lines(text: str):
+    return list(io.StringIO(text, newline=""))
+
+
+def real_load_csv_bytes(data: bytes, tmp: str, idx: int):
+    """the project's own `load_csv` on a file with exactly these bytes"""
+    from rpft.parsers.sheets import load_csv
+
+    p = os.path.join(tmp, "f%d.csv" % idx)
+    with open(p, "wb") as f:
+        f.write(data)
+    try:
+        t = load_csv(p)
+    except Exception as e:  # noqa: BLE001
+        return {"__err__": csv_err_name(e)}
+    finally:
+        os.remove(p)
+    return {"headers": (list(t.headers) if t.headers else None), "rows": [list(t[i]) for i in range(t.height)]}
+
+
+def csv_lines_from_file(text: str, tmp: str):
+    """line iteration of a REAL text file opened as load_csv opens it"""
+    p = os.path.join(tmp, "lines.txt")
+    with open(p, "w", encoding="utf-8", newline="") as f:
+        f.write(text)
+    with open(p, "r", encoding="utf-8", newline="") as f:
+        out = list(f)
+    os.remove(p)
+    return out
+
+
+def csv_small_strings(n: int):
+    import itertools
+
+    return ["".join(q) for k in range(0, n + 1) for q in itertools.product(CSV_ALPHA, repeat=k)]
+
+
+def csv_small_grids():
+    """every grid of at most 2 fields in one record / 1 field in each of two records, over all
+    strings of length ≤ 2 of the alphabet, plus the empty-record shapes"""
+    import itertools
+
+    strs = csv_small_strings(2)
+    grids = [[]] + [[list(r)] for n in range(0, 3) for r in itertools.product(strs, repeat=n)]
+    grids += [[[a], [b]] for a in strs for b in strs]
+    grids += [[[], [a]] for a in strs] + [[[a], []] for a in strs] + [[[], []], [[""], [""]], [["", ""], [""]], [[""], [], [""]]]
+    return grids
+
+
+def csv_text_worker(texts):
+    """reader + line iterator on arbitrary texts: model vs real (tie)"""
+    drv = core.Driver()
+    out = {"n": 0, "ties": [], "viol": [], "strata": {}, "keys": []}
+    reqs = []
+    for t in texts:
+        reqs.append({"op": "csv.read", "text": t})
+        reqs.append({"op": "csv.lines", "text": t})
+    ans = drv.results(reqs)
+    for i, t in enumerate(texts):
+        real = real_csv_read(t)
+        out["n"] += 1
+        k = "csv_text:" + ("error_" + real["err"] if "err" in real else "records=%s" % min(len(real["ok"]), 3))
+        out["strata"][k] = out["strata"].get(k, 0) + 1
+        if "ok" in real:
+            for nm, cond in (("csv_text:blank_record", any(r == [] for r in real["ok"])),
+                             ("csv_text:field_with_line_end", any("\n" in c or "\r" in c for r in real["ok"] for c in r)),
+                             ("csv_text:field_with_quote", any("\"" in c for r in real["ok"] for c in r))):
+                if cond:
+                    out["strata"][nm] = out["strata"].get(nm, 0) + 1
+        if ans[2 * i] != real and len(out["ties"]) < 10:
+            out["ties"].append({"what": "csv.reader: model and real differ", "text": t, "model": ans[2 * i], "real": real})
+        rl = real_lines(t)
+        if ans[2 * i + 1] != rl and len(out["ties"]) < 10:
+            out["ties"].append({"what": "newline='' line iteration: model and real differ", "text": t, "model": ans[2 * i + 1], "real": rl})
+    out["keys"] = ["csvtext:" + t for t in texts]
+    return out
+
+
+def plain_for_reader(c: str) -> bool:
+    return not any(x in c for x in ",\"\r\n")
+
+
+def csv_grid_worker(grids):
+    """writer (4 dialects) model vs real, reader model vs real on the real writer's text, and the
+    statement of csv_read_write_dialect evaluated on the REAL pair"""
+    drv = core.Driver()
+    out = {"n": 0, "ties": [], "viol": [], "strata": {}, "keys": []}
+
+    def count(k, n=1):
+        out["strata"][k] = out["strata"].get(k, 0) + n
+
+    reqs, meta = [], []
+    for g in grids:
+        for lt, qa in CSV_STYLES:
+            text = real_csv_write(g, lt, qa)
+            reqs.append({"op": "csv.write", "records": g, "lt": lt, "quote_all": qa})
+            reqs.append({"op": "csv.read", "text": text})
+            meta.append((g, lt, qa, text))
+    ans = drv.results(reqs)
+    for i, (g, lt, qa, text) in enumerate(meta):
+        out["n"] += 1
+        style = "csv_grid:lt=%s,%s" % ("CRLF" if lt == "\r\n" else "LF", "quote_all" if qa else "minimal")
+        count(style)
+        mw, mr = ans[2 * i], ans[2 * i + 1]
+        if mw != text and len(out["ties"]) < 10:
+            out["ties"].append({"what": "csv.writer: model and real differ", "records": g, "lt": lt, "quote_all": qa, "model": mw, "real": text})
+        real = real_csv_read(text)
+        if mr != real and len(out["ties"]) < 10:
+            out["ties"].append({"what": "csv.reader on the real writer's text: model and real differ", "text": text, "model": mr, "real": real})
+        # the theorem's statement on the real pair (library level: a disagreement is a tie break of
+        # the model's claim, the project-level oracle is the file stream)
+        guard = qa or lt == "\r\n" or all("\r" not in c for r in g for c in r)
+        if guard:
+            if real != {"ok": g} and len(out["ties"]) < 10:
+                out["ties"].append({"what": "real csv.reader(csv.writer(records)) != records inside the guard of csv_read_write_dialect", "records": g, "lt": lt, "quote_all": qa, "read": real})
+        else:
+            count("csv_grid:outside_guard(LF,minimal,CR in cell)")
+            if real == {"ok": g}:
+                count("csv_grid:outside_guard_but_exact")
+    for g in grids:
+        flat = [c for r in g for c in r]
+        for nm, cond in (("csv_grid:empty_record", any(r == [] for r in g)), ("csv_grid:lone_empty_field", any(r == [""] for r in g)),
+                         ("csv_grid:cell_cr", any("\r" in c for c in flat)), ("csv_grid:cell_lf", any("\n" in c for c in flat)),
+                         ("csv_grid:cell_quote", any("\"" in c for c in flat)), ("csv_grid:cell_comma", any("," in c for c in flat)),
+                         ("csv_grid:cell_edge_space", any(c != c.strip(" ") for c in flat)), ("csv_grid:cell_non_ascii", any(ord(x) > 127 for c in flat for x in c)),
+                         ("csv_grid:ragged", len({len(r) for r in g}) > 1)):
+            if cond:
+                count(nm)
+    out["keys"] = ["csvgrid:" + json.dumps(g, ensure_ascii=False) for g in grids]
+    return out
+
+
+def gen_csv_cell(rng: random.Random) -> str:
+    r = rng.random()
+    if r < 0.15:
+        return ""
+    if r < 0.5:
+        return gen_cell(rng)
+    n = rng.randint(1, 12) if r < 0.9 else rng.randint(40, 300)
+    return "".join(rng.choice(["a", "b", " ", ",", "\"", "\r", "\n", "\r\n", "é", "\U0001F600", " ", "\x00", "\t", ";", "0"]) for _ in range(n))
+
+
+def gen_csv_grid(rng: random.Random):
+    """larger random record lists, ragged on purpose (the csv module does not care)"""
+    rows = []
+    for _ in range(rng.randint(0, 12)):
+        q = rng.random()
+        if q < 0.06:
+            rows.append([])
+        elif q < 0.12:
+            rows.append([""])
+        else:
+            rows.append([gen_csv_cell(rng) for _ in range(rng.randint(1, 9))])
+    return rows
+
+
+def mutate_csv_text(rng: random.Random, text: str) -> str:
+    """texts no writer produced: blank lines, missing / extra fields, bare CR / LF line ends, no final
+    line end, BOM, stray quotes"""
+    k = rng.randrange(10)
+    if k == 0:
+        return text.replace("\r\n", "\n")
+    if k == 1:
+        return text[:-2] if text.endswith("\r\n") else text
+    if k == 2:
+        i = rng.randint(0, len(text))
+        return text[:i] + rng.choice(["\r\n", "\n", "\r", "\r\n\r\n"]) + text[i:]
+    if k == 3:
+        i = rng.randint(0, len(text))
+        return text[:i] + rng.choice([",", "\"", "\"\"", " ", ",,"]) + text[i:]
+    if k == 4 and text:
+        i = rng.randrange(len(text))
+        return text[:i] + text[i + 1:]
+    if k == 5:
+        return "\ufeff" + text
+    if k == 6:
+        return text + rng.choice(["x", "x,y", "\"open", ",", "\r", "\"\"", "1,2,3,4,5,6,7,8,9,10,11,12,13,14"])
+    if k == 7:
+        return text.replace("\r\n", "\r")
+    if k == 8:
+        return "\r\n" + text
+    return text.replace(",", ",,", 1)
+
+
+def csv_file_worker(seeds):
+    """the project's own path, bytes to sheet: tablib export -> UTF-8 file -> load_csv.
+    C: load_csv(export(sheet)) is the sheet, cell by cell (the property's CSV leg on the real code).
+    B: model exportCsv == real export text; model loadCsv(bytes) == real load_csv(file) on the
+    written files AND on mutated / malformed files (errors included)."""
+    import tablib
+
+    tmp = tempfile.mkdtemp(prefix="c14csv_")
+    drv = core.Driver()
+    out = {"n": 0, "ties": [], "viol": [], "strata": {}, "keys": []}
+
+    def count(k, n=1):
+        out["strata"][k] = out["strata"].get(k, 0) + n
+
+    try:
+        reqs, checks = [], []
+        for seed in seeds:
+            rng = random.Random(seed)
+            s = gen_sheet(rng, "s")
+            for r in s["rows"]:
+                for j in range(len(r)):
+                    if rng.random() < 0.3:
+                        r[j] = gen_csv_cell(rng) or r[j]
+            if rng.random() < 0.15:
+                s["headers"][rng.randrange(len(s["headers"]))] += rng.choice([",", "\"", "\r\n", "\r", "\n"])
+                if len(set(s["headers"])) < len(s["headers"]):
+                    continue
+            ds = tablib.Dataset()
+            ds.headers = s["headers"]
+            for r in s["rows"]:
+                ds.append(r)
+            text = ds.export("csv")
+            data = text.encode("utf-8")
+            out["n"] += 1
+            out["keys"].append("csvfile:" + json.dumps(s, ensure_ascii=False, sort_keys=True))
+            count("csv_file:sheets")
+            flat = [c for r in s["rows"] for c in r] + s["headers"]
+            for nm, cond in (("csv_file:cell_cr", any("\r" in c for c in flat)), ("csv_file:cell_crlf", any("\r\n" in c for c in flat)),
+                             ("csv_file:cell_lf", any("\n" in c for c in flat)), ("csv_file:cell_quote", any("\"" in c for c in flat)),
+                             ("csv_file:one_column", len(s["headers"]) == 1), ("csv_file:cell_nul", any("\x00" in c for c in flat))):
+                if cond:
+                    count(nm)
+            real = real_load_csv_bytes(data, tmp, out["n"])
+            exp = {"headers": s["headers"], "rows": s["rows"]}
+            if real != exp and len(out["viol"]) < 5:
+                out["viol"].append({"what": "csv: load_csv of the file tablib exported for a sheet differs from the sheet",
+                                    "workbook": [s], "format": "csv", "seed": seed, "diff": first_diff({"s": exp}, {"s": real} if "__err__" not in real else {"__exc__": real["__err__"]})})
+            reqs.append({"op": "csv.export", "name": "s", "headers": s["headers"], "rows": s["rows"]})
+            checks.append(("export", s, text))
+            reqs.append({"op": "csv.load", "bytes": list(data)})
+            checks.append(("load", data, real))
+            # malformed / foreign files
+            for _ in range(3):
+                t2 = mutate_csv_text(rng, text)
+                d2 = t2.encode("utf-8")
+                if rng.random() < 0.1 and d2:
+                    i = rng.randrange(len(d2))
+                    d2 = d2[:i] + bytes([rng.choice([0x80, 0xC0, 0xFF, 0xED, 0xE2])]) + d2[i + 1:]
+                r2 = real_load_csv_bytes(d2, tmp, out["n"])
+                count("csv_file:mutated:" + (r2.get("__err__") or ("same_as_sheet" if r2 == exp else "other_sheet")))
+                reqs.append({"op": "csv.load", "bytes": list(d2)})
+                checks.append(("load", d2, r2))
+        answers = drv.results(reqs)
+        for (kind, inp, real), ans in zip(checks, answers):
+            if kind == "export":
+                if ans != real and len(out["ties"]) < 10:
+                    out["ties"].append({"what": "tablib export('csv'): model and real text differ", "sheet": inp, "model": ans, "real": real})
+            else:
+                mt = model_table(ans) if isinstance(ans, dict) else ans
+                if mt != real and len(out["ties"]) < 10:
+                    out["ties"].append({"what": "load_csv on file bytes: model and real differ", "bytes": inp.decode("utf-8", "backslashreplace"), "model": mt, "real": real})
+    finally:
+        shutil.rmtree(tmp, ignore_errors=True)
+    return out
+
+
+def csv_utf8_worker(seeds):
+    """UTF-8 layer: model encode == str.encode; model strict decoder == bytes.decode on valid,
+    truncated, overlong, surrogate and out-of-range sequences"""
+    drv = core.Driver()
+    out = {"n": 0, "ties": [], "viol": [], "strata": {}, "keys": []}
+    pool = ["a", "é", "ß", "\u07ff", "\u0800", "日", "\ud7ff", "\ue000", "\ufeff", "\uffff", "\U00010000", "\U0001F600", "\U0010FFFF", "\x00", "\x7f", "\x80", "\r", "\n"]
+    bad = [b"\x80", b"\xc0\x80", b"\xc1\xbf", b"\xe0\x80\x80", b"\xe0\x9f\xbf", b"\xed\xa0\x80", b"\xed\xbf\xbf", b"\xf0\x80\x80\x80", b"\xf0\x8f\xbf\xbf",
+           b"\xf4\x90\x80\x80", b"\xf5\x80\x80\x80", b"\xff", b"\xfe", b"\xc3", b"\xe2\x82", b"\xf0\x9f\x98", b"\xc3\x28", b"\xe2\x28\xa1", b"\xef\xbb\xbf"]
+    reqs, exp = [], []
+    for seed in seeds:
+        rng = random.Random(seed)
+        t = "".join(rng.choice(pool) for _ in range(rng.randint(0, 12)))
+        reqs.append({"op": "csv.utf8enc", "text": t})
+        exp.append(("enc", t, list(t.encode("utf-8"))))
+        b = t.encode("utf-8")
+        q = rng.random()
+        if q < 0.5:
+            i = rng.randint(0, len(b))
+            b = b[:i] + rng.choice(bad) + b[i:]
+        elif q < 0.7 and b:
+            b = b[:rng.randrange(len(b))]
+        try:
+            want = b.decode("utf-8")
+            out["strata"]["csv_utf8:decodes"] = out["strata"].get("csv_utf8:decodes", 0) + 1
+        except UnicodeDecodeError:
+            want = None
+            out["strata"]["csv_utf8:rejected"] = out["strata"].get("csv_utf8:rejected", 0) + 1
+        reqs.append({"op": "csv.utf8dec", "bytes": list(b)})
+        exp.append(("dec", b.hex(), want))
+        out["n"] += 2
+        out["keys"].append("utf8:" + t + ":" + b.hex())
+    for (kind, inp, want), ans in zip(exp, drv.results(reqs)):
+        if ans != want and len(out["ties"]) < 10:
+            out["ties"].append({"what": f"UTF-8 {kind}: model and Python codec differ", "input": inp, "model": ans, "real": want})
+    return out
+
+
+def csv_fixed_stream(ck: core.Check, tmp: str):
+    """hand-made texts, the kernel-checked facts of Props/C14 about concrete texts, the field limit
+    at its real value, the dialect facts the model is built on — all against the real libraries"""
+    import tablib
+
+    drv = core.Driver()
+    # dialect facts (a change of the interpreter / tablib shows up here first)
+    facts = {
+        "csv.field_size_limit()": csv.field_size_limit(),
+        "excel.delimiter": csv.excel.delimiter, "excel.quotechar": csv.excel.quotechar, "excel.doublequote": csv.excel.doublequote,
+        "excel.quoting": csv.excel.quoting, "excel.lineterminator": csv.excel.lineterminator, "excel.escapechar": csv.excel.escapechar,
+        "excel.skipinitialspace": csv.excel.skipinitialspace,
+    }
+    want = {"csv.field_size_limit()": 131072, "excel.delimiter": ",", "excel.quotechar": "\"", "excel.doublequote": True, "excel.quoting": csv.QUOTE_MINIMAL,
+            "excel.lineterminator": "\r\n", "excel.escapechar": None, "excel.skipinitialspace": False}
+    ck.extra["csv_dialect_facts"] = {k: repr(v) for k, v in facts.items()}
+    ck.case("csv:dialect-facts")
+    if facts != want:
+        ck.tie_break("csv dialect facts the model is built on no longer hold", {"now": {k: repr(v) for k, v in facts.items()}})
+    # hand-made texts
+    reqs = []
+    for t in CSV_HANDMADE:
+        reqs += [{"op": "csv.read", "text": t}, {"op": "csv.lines", "text": t}, {"op": "csv.load", "bytes": list(t.encode("utf-8"))}]
+    ans = drv.results(reqs)
+    for i, t in enumerate(CSV_HANDMADE):
+        ck.case("csv:handmade:" + t)
+        ck.count("csv_handmade_texts")
+        real = real_csv_read(t)
+        if ans[3 * i] != real:
+            ck.tie_break("hand-made csv text: model reader and real csv.reader differ", {"text": t, "model": ans[3 * i], "real": real})
+        fl = csv_lines_from_file(t, tmp)
+        if ans[3 * i + 1] != fl or fl != real_lines(t):
+            ck.tie_break("hand-made csv text: line iteration of a real newline='' file differs from the model", {"text": t, "model": ans[3 * i + 1], "file": fl})
+        rl = real_load_csv_bytes(t.encode("utf-8"), tmp, i)
+        if model_table(ans[3 * i + 2]) != rl:
+            ck.tie_break("hand-made csv text: model load_csv and real load_csv differ", {"text": t, "model": model_table(ans[3 * i + 2]), "real": rl})
+    # kernel-checked facts, replayed on the real libraries (must hold verbatim)
+    kernel = [
+        ("csv_reader_quirks", "a,b\nc,d", [["a", "b"], ["c", "d"]]), ("csv_reader_quirks", "a\rb\r", [["a"], ["b"]]),
+        ("csv_reader_quirks", "a,\"b\nc", [["a", "b\nc"]]), ("csv_reader_quirks", "\"a\"b,\"c\" \n", [["ab", "c "]]),
+        ("csv_reader_quirks", "a\"b, \"c\"\n", [["a\"b", " \"c\""]]), ("csv_reader_quirks", "x\r\r\ny", [["x"], [], ["y"]]),
+        ("needs_validRow", "a\rb\n", [["a"], ["b"]]), ("needs_validRow", "\"a,b\n", [["a,b\n"]]), ("needs_validRow", "\n", [[]]),
+        ("lf_minimal_loses_cr", real_csv_write([["a\rb"]], "\n", False), [["a"], ["b"]]),
+        ("lf_minimal_loses_cr", real_csv_write([["a\rb"]], "\n", True), [["a\rb"]]),
+        ("lf_minimal_loses_cr", real_csv_write([["a\rb"]], "\r\n", False), [["a\rb"]]),
+    ]
+    for thm, t, recs in kernel:
+        ck.case("csv:kernel:" + thm + ":" + t)
+        ck.count("csv_kernel_facts_replayed")
+        if real_csv_read(t) != {"ok": recs}:
+            ck.tie_break(f"kernel-checked fact {thm} does not hold on the real csv.reader", {"text": t, "model": recs, "real": real_csv_read(t)})
+    if real_csv_write([["a\rb"]], "\n", False) != "a\rb\n":
+        ck.tie_break("kernel-checked fact lf_minimal_loses_cr: the real LF/QUOTE_MINIMAL writer now quotes a CR", {"real": real_csv_write([["a\rb"]], "\n", False)})
+    hostile = [["a,b", "say \"hi\"", "l1\r\nl2\rl3\nl4", "é日本", "", " x "], [], [""], ["", ""], ["\""], ["\r", "\n", ","]]
+    ck.case("csv:kernel:gHostile")
+    if real_csv_read(real_csv_write(hostile, "\r\n", False)) != {"ok": hostile}:
+        ck.tie_break("gHostile does not round-trip through the real csv module", {"text": real_csv_write(hostile, "\r\n", False)})
+    for name, s, want_t in (("wNoHeaderRows", {"headers": [], "rows": [["x"], ["y"]]}, {"headers": ["x"], "rows": [["y"]]}),
+                            ("wShortRow", {"headers": ["a", "b"], "rows": [["1"]]}, None),
+                            ("wNoHeader", {"headers": [], "rows": [[], []]}, {"headers": None, "rows": []})):
+        # csv_file_needs_header_and_rect: tablib itself refuses to BUILD the ragged datasets, so the
+        # short/long rows are replayed as files (what matters is what load_csv makes of the text)
+        ck.case("csv:kernel:" + name)
+        if want_t is None:
+            continue
+        ds = tablib.Dataset()
+        if s["headers"]:
+            ds.headers = s["headers"]
+        for r in s["rows"]:
+            ds.append(r)
+        real = real_load_csv_bytes(ds.export("csv").encode("utf-8"), tmp, 0)
+        if real != want_t:
+            ck.tie_break(f"kernel-checked fact csv_file_needs_header_and_rect ({name}) does not hold on the real code", {"sheet": s, "model": want_t, "real": real})
+    for name, text, want_t in (("wShortRow", "a,b\r\n1\r\n", {"headers": ["a", "b"], "rows": [["1", ""]]}), ("wLongRow", "a\r\n1,2\r\n", {"__err__": "invalidDimensions"}),
+                               ("blank_line", "a,b\r\n\r\n1,2\r\n", {"headers": ["a", "b"], "rows": [["1", "2"]]}),
+                               ("blank_row", "a,b\r\n,\r\n1,2\r\n", {"headers": ["a", "b"], "rows": [["", ""], ["1", "2"]]}),
+                               ("blank_row_one_column", "a\r\n\"\"\r\n1\r\n", {"headers": ["a"], "rows": [[""], ["1"]]})):
+        ck.case("csv:kernel:file:" + name)
+        ck.count("csv_kernel_facts_replayed")
+        real = real_load_csv_bytes(text.encode("utf-8"), tmp, 0)
+        if real != want_t:
+            ck.tie_break(f"kernel-checked fact ({name}) does not hold on the real load_csv", {"text": text, "model": want_t, "real": real})
+    # the field limit at its real value (needs_fieldsFit is kernel-checked at limit 3)
+    reqs, reals = [], []
+    for n in (131072, 131073):
+        for cell in ("x" * n, "x" * (n - 1) + ",", "\"" * n):
+            text = real_csv_write([["h"], [cell]], "\r\n", False)
+            reqs.append({"op": "csv.read", "text": text})
+            reals.append((n, cell[-1], real_csv_read(text), [["h"], [cell]]))
+    for n in (131072, 131073):
+        # the project's own load_csv at the limit (it never raises the limit: behavioural check)
+        rl = real_load_csv_bytes(("h\r\n" + "y" * n + "\r\n").encode("utf-8"), tmp, n)
+        ck.case(f"csv:field-limit:load_csv:{n}")
+        if (n <= 131072) != ("__err__" not in rl) or rl.get("__err__", "fieldLimit") != "fieldLimit":
+            ck.tie_break("field limit: load_csv does not fail exactly above 131072 characters per cell", {"cell_chars": n, "real": str(rl)[:80]})
+    for (n, kind, real, recs), a in zip(reals, drv.results(reqs)):
+        ck.case(f"csv:field-limit:{n}:{kind}")
+        ck.count("csv_field_limit_cases")
+        if a != real:
+            ck.tie_break("field limit: model and real csv.reader differ", {"cell_chars": n, "cell_kind": kind, "model": str(a)[:80], "real": str(real)[:80]})
+        if (n <= 131072) != (real == {"ok": recs}):
+            ck.tie_break("field limit: the real reader does not fail exactly above 131072 characters", {"cell_chars": n, "cell_kind": kind, "real": str(real)[:80]})
+    # needs_fieldsFit at limit 3 (the driver takes the limit as a parameter)
+    for cell, want_a in (("abc", {"ok": [["abc"]]}), ("abcd", {"err": "fieldLimit"}), ("a\"\"b", {"err": "fieldLimit"})):
+        old = csv.field_size_limit(3)
+        try:
+            real = real_csv_read(real_csv_write([[cell]], "\r\n", False))
+        finally:
+            csv.field_size_limit(old)
+        a = drv.results([{"op": "csv.read", "text": real_csv_write([[cell]], "\r\n", False), "limit": 3}])[0]
+        ck.case("csv:kernel:needs_fieldsFit:" + cell)
+        if not (a == real == want_a):
+            ck.tie_break("kernel-checked fact needs_fieldsFit does not hold on the real csv.reader", {"cell": cell, "model": a, "real": real})
+
+
+# --------------------------------------------------------------------------- JSON string literals: model (Rpft/JsonText.lean) vs the real json module
+
+JSON_ENC_ALPHA = ["a", "\"", "\\", "/", "\n", "\r", "\t", "\b", "\f", "\x00", "\x1f", "\x7f", " ", "é", "\u2028", "\U0001F600", "u"]
+JSON_SCAN_ALPHA = ["\"", "\\", "u", "n", "/", "d", "8", "0", "A", "x", "\n", "é"]
+JSON_SCAN_FRAGMENTS = ["\\u00e9", "\\u00E9", "\\ud83d", "\\ude00", "\\uD83D\\uDE00", "\\ud83d\\ude00", "\\u0041", "\\u12", "\\uzzzz", "\\u 123", "\\u+123", "\\u1_23", "\\u0x12",
+                       "\\n", "\\r", "\\t", "\\b", "\\f", "\\/", "\\\\", "\\\"", "\\a", "\\U0041", "\\x41", "a", "é", "\U0001F600", "\x7f", "\x1f", "\n", "\t", "\"", "\\", " ", "u", "\\u", "\\ud83d\\u", "\\ud83d\\ude0", "\\udbff\\udfff", "\\ud800\\udc00", "\\udc00\\ud800", "\\uffff", "\\u0000"]
+
+
+def json_err_name(e: Exception) -> str:
+    m = str(e)
+    for needle, name in (("Invalid control character", "controlChar"), ("Invalid \\uXXXX escape", "invalidUnicodeEscape"), ("Invalid \\escape", "invalidEscape"),
+                         ("Unterminated string", "unterminated")):
+        if needle in m:
+            return name
+    return type(e).__name__
+
+
+def real_json_scan(text: str):
+    """the scanner `json.loads` uses for string literals (C accelerator when present), on a text
+    that starts with the opening quote"""
+    if not text.startswith("\""):
+        return {"err": "unterminated"}
+    try:
+        v, end = json.decoder.scanstring(text, 1)
+    except json.JSONDecodeError as e:
+        return {"err": json_err_name(e)}
+    return {"ok": [v, text[end:]]}
+
+
+def has_surrogate(x) -> bool:
+    return any(0xD800 <= ord(c) <= 0xDFFF for c in x)
+
+
+def json_string_worker(task):
+    """encode: model == json.dumps(s, ensure_ascii=False) == py_encode_basestring(s); scan: model ==
+    scanstring on arbitrary texts; and the round trip on the real pair"""
+    kind, items = task
+    drv = core.Driver()
+    out = {"n": 0, "ties": [], "viol": [], "strata": {}, "keys": []}
+
+    def count(k, n=1):
+        out["strata"][k] = out["strata"].get(k, 0) + n
+
+    if kind == "enc":
+        ans = drv.results([{"op": "jsontext.encode", "text": t} for t in items])
+        for t, a in zip(items, ans):
+            out["n"] += 1
+            real = json.dumps(t, ensure_ascii=False)
+            if not (a == real == json.encoder.py_encode_basestring(t)) and len(out["ties"]) < 10:
+                out["ties"].append({"what": "JSON string literal: model encodeString and json.dumps(ensure_ascii=False) differ", "text": t, "model": a, "real": real})
+            if json.loads(real) != t and len(out["ties"]) < 10:
+                out["ties"].append({"what": "json.loads(json.dumps(s)) != s on the real json module", "text": t})
+            # the document writer uses the same literal for keys and values
+            doc = json.dumps({"sheets": {t: [{t: t}]}}, ensure_ascii=False, indent=2)
+            if doc.count(real) != 3 and len(out["ties"]) < 10:
+                out["ties"].append({"what": "json.dumps(indent=2) does not write keys and values with the modelled literal", "text": t, "doc": doc})
+            count("json_enc:" + ("escapes" if real != "\"" + t + "\"" else "verbatim"))
+        out["keys"] = ["jsonenc:" + t for t in items]
+    else:
+        ans = drv.results([{"op": "jsontext.scan", "text": t} for t in items])
+        for t, a in zip(items, ans):
+            out["n"] += 1
+            real = real_json_scan(t)
+            if a == {"err": "loneSurrogate"}:
+                # outside `Char`: the real scanner goes on with a lone surrogate in its result
+                count("json_scan:lone_surrogate_unrepresentable")
+                if "ok" in real and not has_surrogate(real["ok"][0]) and len(out["ties"]) < 10:
+                    out["ties"].append({"what": "JSON scanstring: model says lone surrogate, real result has none", "text": t, "real": real})
+                continue
+            count("json_scan:" + (real.get("err") or "ok"))
+            if a != real and len(out["ties"]) < 10:
+                out["ties"].append({"what": "JSON scanstring: model and real differ", "text": t, "model": a, "real": real})
+        out["keys"] = ["jsonscan:" + t for t in items]
+    return out
+
+
+def json_string_tasks(ck: core.Check, quick: bool):
+    import itertools
+
+    enc = ["".join(q) for k in range(0, 3 if quick else 4) for q in itertools.product(JSON_ENC_ALPHA, repeat=k)]
+    enc += [gen_cell(ck.rng) for _ in range(500 if quick else 5000)]
+    enc += ["".join(chr(i) for i in range(0, 0x30)), "".join(chr(i) for i in range(0x7f, 0xa1)), "\ud7ff\ue000\ufeff\uffff\U00010000\U0010ffff"]
+    scan = ["\"" + "".join(q) for k in range(0, 5 if quick else 6) for q in itertools.product(JSON_SCAN_ALPHA, repeat=k)]
+    for _ in range(3000 if quick else 30000):
+        scan.append("\"" + "".join(ck.rng.choice(JSON_SCAN_FRAGMENTS) for _ in range(ck.rng.randint(0, 6))) + ck.rng.choice(["\"", "\"", "\"tail", "", "\" "]))
+    return [("enc", sh) for sh in core.shard(enc, par.NPROC)] + [("scan", sh) for sh in core.shard(scan, par.NPROC)]
+
+
+# --------------------------------------------------------------------------- JSON documents: model json.loads / JSONSheetReader vs real
+
+JSON_DOC_ALPHA = ["{", "}", "[", "]", "\"", ":", ",", " ", "a", "\n"]
+JSON_ERR_NEEDLES = {"expectingValue": "Expecting value", "expectingPropertyName": "Expecting property name", "expectingColon": "Expecting ':'", "expectingComma": "Expecting ','",
+                    "extraData": "Extra data", "unterminated": "Unterminated string", "controlChar": "Invalid control", "invalidEscape": "Invalid \\escape",
+                    "invalidUnicodeEscape": "Invalid \\uXXXX", "bom": "BOM"}
+
+
+def jv_enc(v):
+    if isinstance(v, str):
+        return v
+    if isinstance(v, list):
+        return {"a": [jv_enc(x) for x in v]}
+    if isinstance(v, dict):
+        return {"o": [[k, jv_enc(x)] for k, x in v.items()]}
+    raise ValueError("unsupported")
+
+
+def real_json_loads(t: str):
+    try:
+        v = json.loads(t)
+    except json.JSONDecodeError as e:
+        return {"err": str(e)}
+    try:
+        return {"ok": jv_enc(v)}
+    except ValueError:
+        return {"err": "unsupported"}
+
+
+def json_loads_agree(model, real) -> bool:
+    if "ok" in real:
+        return model == real
+    if not isinstance(model, dict) or "err" not in model:
+        return False
+    return model["err"] == real["err"] or JSON_ERR_NEEDLES.get(model["err"], "\x00") in real["err"]
+
+
+def json_doc_text_worker(texts):
+    drv = core.Driver()
+    out = {"n": 0, "ties": [], "viol": [], "strata": {}, "keys": []}
+    ans = drv.results([{"op": "jsontext.loads", "text": t} for t in texts])
+    for t, a in zip(texts, ans):
+        out["n"] += 1
+        real = real_json_loads(t)
+        k = "json_doc_text:" + ("ok" if "ok" in real else "error")
+        out["strata"][k] = out["strata"].get(k, 0) + 1
+        if a == {"err": "loneSurrogate"} or (a == {"err": "unsupported"} and "ok" not in real):
+            continue        # outside the model (a later syntax error may win on the real side)
+        if not json_loads_agree(a, real) and len(out["ties"]) < 10:
+            out["ties"].append({"what": "json.loads: model and real differ", "text": t, "model": a, "real": real})
+    out["keys"] = ["jsondoc:" + t for t in texts]
+    return out
+
+
+def real_json_reader_bytes(data: bytes, tmp: str, idx: int):
+    p = os.path.join(tmp, "b%d.json" % idx)
+    with open(p, "wb") as f:
+        f.write(data)
+    got = read_sheets("json", p)
+    os.remove(p)
+    if "__exc__" in got:
+        m = got["__exc__"]
+        if m.startswith("JSONDecodeError"):
+            for name, needle in JSON_ERR_NEEDLES.items():
+                if needle in m:
+                    return {"__err__": name}
+            return {"__err__": m}
+        if m.startswith("UnicodeDecodeError"):
+            return {"__err__": "decode"}
+        if m.startswith("InvalidDimensions"):
+            return {"__err__": "invalidDimensions"}
+        if m.split(":")[0] in ("KeyError", "AttributeError", "TypeError", "UnsupportedFormat", "IndexError"):
+            return {"__err__": "shape"}
+        return {"__err__": m}
+    return got
+
+
+def gen_json_doc_variant(rng: random.Random):
+    """a workbook as JSON text in a style `to_json` never writes, or damaged"""
+    sheets = [gen_sheet(rng, "s%d" % i, min_rows=rng.choice([0, 1, 1])) for i in range(rng.randint(0, 3))]
+    for s in sheets:
+        if rng.random() < 0.3:
+            for r in s["rows"]:
+                for j in range(len(r)):
+                    if rng.random() < 0.3:
+                        r[j] = gen_csv_cell(rng)
+    book = {"meta": {"version": "0.1.0"}, "sheets": {}}
+    for s in sheets:
+        q = rng.random()
+        if q < 0.7:
+            book["sheets"][s["name"]] = [dict(zip(s["headers"], r)) for r in s["rows"]]
+        elif q < 0.85:
+            book["sheets"][s["name"]] = [list(r) for r in s["rows"]]
+        else:
+            rows = [dict(zip(s["headers"], r)) for r in s["rows"]]
+            if rows:
+                rows[rng.randrange(len(rows))].pop(s["headers"][0], None)      # ragged
+            book["sheets"][s["name"]] = rows
+    if rng.random() < 0.15:
+        book = {k: book[k] for k in ("sheets", "meta")}
+    if rng.random() < 0.05:
+        del book["meta"]
+    style = rng.randrange(8)
+    if style == 0:
+        text = json.dumps(book, ensure_ascii=False, separators=(",", ":"))
+    elif style == 1:
+        text = json.dumps(book, ensure_ascii=True, indent=4)
+    elif style == 2:
+        text = json.dumps(book, ensure_ascii=False, indent="\t")
+    elif style == 3:
+        text = json.dumps(book, ensure_ascii=False, indent=2).replace("\n", "\r\n")
+    elif style == 4:
+        text = "  \n" + json.dumps(book, ensure_ascii=False) + "\n\n"
+    else:
+        text = json.dumps(book, ensure_ascii=False, indent=2)
+    k = rng.randrange(12)
+    if k == 0 and text:
+        i = rng.randrange(len(text))
+        text = text[:i] + text[i + 1:]
+    elif k == 1:
+        i = rng.randint(0, len(text))
+        text = text[:i] + rng.choice([",", "}", "]", "\"", " ", "\n", "{", ":", "x", "\\"]) + text[i:]
+    elif k == 2:
+        text = "\ufeff" + text
+    elif k == 3:
+        text = text + rng.choice(["x", "{}", ",", " \n "])
+    elif k == 4:
+        text = text.replace("\"sheets\"", "\"Sheets\"", 1)
+    elif k == 5 and "\"s0\"" in text:
+        text = text.replace("\"s0\"", "\"s1\"", 1)           # duplicate sheet name in the TEXT: the later one wins, at the first position
+    data = text.encode("utf-8")
+    if rng.random() < 0.05 and data:
+        i = rng.randrange(len(data))
+        data = data[:i] + bytes([rng.choice([0x80, 0xC0, 0xFF, 0xED])]) + data[i + 1:]
+    return data
+
+
+def json_doc_file_worker(seeds):
+    tmp = tempfile.mkdtemp(prefix="c14jd_")
+    drv = core.Driver()
+    out = {"n": 0, "ties": [], "viol": [], "strata": {}, "keys": []}
+    try:
+        datas = [gen_json_doc_variant(random.Random(sd)) for sd in seeds]
+        ans = drv.results([{"op": "jsontext.loadbook", "bytes": list(d)} for d in datas])
+        for i, (d, a) in enumerate(zip(datas, ans)):
+            out["n"] += 1
+            real = real_json_reader_bytes(d, tmp, i)
+            mt = model_book(a)
+            k = "json_doc_file:" + (real["__err__"] if "__err__" in real and real["__err__"] in ("shape", "decode", "invalidDimensions") else "syntax_error" if "__err__" in real else "read_ok")
+            out["strata"][k] = out["strata"].get(k, 0) + 1
+            if mt in ({"__err__": "unsupported"}, {"__err__": "loneSurrogate"}):
+                continue
+            if mt != real and len(out["ties"]) < 10:
+                out["ties"].append({"what": "JSONSheetReader on a foreign / damaged JSON file: model and real differ", "text": d.decode("utf-8", "backslashreplace")[:800], "model": str(mt)[:400], "real": str(real)[:400]})
+            out["keys"].append("jsondocfile:" + d.hex()[:200] + str(len(d)))
     finally:
         shutil.rmtree(tmp, ignore_errors=True)
     return out
@@ -1047,15 +1825,22 @@ def run(ck: core.Check):
         "as CSV folder (CRLF or LF records, minimal or full quoting), XLSX (text cells; empty cell absent or empty text) and JSON by the real "
         "convert from both; compile stream: content-index workbooks (templates, data sheets, loops) and core flow sheets with decorated message "
         "texts; direct stream: grids with None / typed cells / trailing and inner None headers fed to _sanitize, ragged JSON contents, tables with "
-        "duplicate or no headers fed to table.dict.  Every case has non-trivial content; distinct = distinct workbook / grid"
+        "duplicate or no headers fed to table.dict; csv streams: every text of length <= 5 (quick) / <= 6 (thorough) over {a , \" CR LF space e-acute} through "
+        "the reader and the line iterator, every grid of <= 2 fields of <= 2 such characters (one record) / two one-field records / empty-record shapes "
+        "x {CRLF, LF} x {QUOTE_MINIMAL, QUOTE_ALL} through writer and reader, random ragged grids of 0-12 records with CR/LF/CRLF/quote/NUL-rich cells, "
+        "tablib-exported sheets and 3 mutations of each (blank lines, dropped / added fields, bare CR or LF line ends, BOM, stray quotes, invalid UTF-8 "
+        "bytes) through load_csv, random UTF-8 / ill-formed byte strings through the codec.  Every case has non-trivial content; distinct = distinct "
+        "workbook / grid / text"
     )
     ck.assumptions = [
-        "Python csv writer/reader, openpyxl writer/reader, tablib import/export and json dumps/loads deliver the written grid (exercised on every case, not modelled)",
+        "openpyxl writer/reader and tablib's xlsx import deliver the written grid (exercised on every case, not modelled)",
+        "the Lean model of the json library (Rpft/JsonText.lean: encode_basestring, _make_iterencode with indent=2, scanstring_unicode / scan_once / _parse_object / _parse_array of _json.c, JSONDecoder.decode, restricted to strings / arrays / objects; recursion limit not modelled) is the real library: compared exhaustively on small texts, on every convert output of the run and on foreign / damaged files, not proved from the C source",
+        "the Lean model of the csv library (Rpft/Csv.lean: join_append_data / csv_writerow / parse_process_char / Reader_iternext of CPython 3.12 _csv.c, text-file line iteration with newline='', strict UTF-8) is the real library: compared exhaustively on small inputs and randomly on larger ones on every run, not proved from the C source",
         "the harness writers are what 'the same workbook content' means: csv.writer (excel dialect, UTF-8, no BOM) and openpyxl text cells",
         "JSON cell values are strings (what the three readers produce); object key order is kept by json and by dict",
     ]
     ck.partial_gap = [
-        "byte formats (csv / xlsx / json parsing and serialisation, encodings) are library code: exercised, not modelled (C14_full holds relative to their faithfulness: theorem c14_partial)",
+        "the XLSX byte format (openpyxl: zip + XML; tablib's xlsx import) is library code: exercised, not modelled (C14_full holds relative to its faithfulness: theorem c14_partial); the CSV byte format is modelled and its round trip proved for all grids whose cells fit csv.field_size_limit() = 131072 characters (a guard that every workbook storable as XLSX satisfies: XLSX cell text is capped at 32767 characters); the JSON byte format is modelled (values of strings / arrays / objects) and its round trip proved for all workbooks of rectangular sheets with distinct headers, at least one row and distinct names",
         "that create_flows is a function of reader.sheets (convert_then_compile takes the compiler as an arbitrary function) is exercised by the compile stream, not proved",
         "GoogleSheetReader is not covered (no network)",
     ]
@@ -1085,9 +1870,74 @@ def run(ck: core.Check):
     fold(ck, par.pmap(direct_worker, core.shard(seeds(n_direct), par.NPROC)), "direct_cases")
     fold(ck, par.pmap(cli_worker, core.shard(seeds(n_cli), min(par.NPROC, n_cli))), "cli_workbooks")
 
+    # the CSV byte format: model of csv.writer / newline='' line iteration / csv.reader / UTF-8 vs the real ones
+    tmpc = tempfile.mkdtemp(prefix="c14csvfix_")
+    try:
+        csv_fixed_stream(ck, tmpc)
+    finally:
+        shutil.rmtree(tmpc, ignore_errors=True)
+    n_txt, n_grid, n_file, n_utf8 = (5, 300, 400, 3000) if quick else (6, 6000, 4000, 30000)
+    fold(ck, par.pmap(csv_text_worker, core.shard(csv_small_strings(n_txt), par.NPROC * 2)), "csv_texts_exhaustive")
+    grids = csv_small_grids()
+    ck.count("csv_grids_exhaustive", len(grids))
+    grids += [gen_csv_grid(random.Random(sd)) for sd in seeds(n_grid)]
+    fold(ck, par.pmap(csv_grid_worker, core.shard(grids, par.NPROC * 2)), "csv_grids_x_4_dialects")
+    fold(ck, par.pmap(csv_file_worker, core.shard(seeds(n_file), par.NPROC)), "csv_files")
+    fold(ck, par.pmap(csv_utf8_worker, core.shard(seeds(n_utf8), par.NPROC)), "csv_utf8_cases")
+    # JSON string literals: encode_basestring / scanstring
+    fold(ck, par.pmap(json_string_worker, json_string_tasks(ck, quick)), "json_string_cases")
+    import itertools
+
+    doc_texts = ["".join(q) for k in range(0, 6 if quick else 7) for q in itertools.product(JSON_DOC_ALPHA, repeat=k)]
+    fold(ck, par.pmap(json_doc_text_worker, core.shard(doc_texts, par.NPROC * 2)), "json_doc_texts_exhaustive")
+    fold(ck, par.pmap(json_doc_file_worker, core.shard(seeds(600 if quick else 6000), par.NPROC)), "json_doc_files")
+    tmpj = tempfile.mkdtemp(prefix="c14jk_")
+    try:
+        drvj = core.Driver()
+        kernel_docs = [("{\"sheets\":{\"s\":[{\"a\":\"1\",\"b\":\"\"}]}}", {"s": {"headers": ["a", "b"], "rows": [["1", ""]]}}),
+                       (" {\r\n\t\"sheets\" : { \"s\" : [ [ \"1\" , \"2\" ] ] } , \"meta\" : { } } \n", {"s": {"headers": None, "rows": [["1", "2"]]}}),
+                       ("{\"sheets\": {\"s\": [{\"a\": \"1\"}, {\"a\": \"2\", \"b\": \"3\"}]}}", {"__err__": "invalidDimensions"}),
+                       ("{\"sheets\": {\"s\": [{\"a\": \"1\"},]}}", {"__err__": "expectingValue"}), ("{\"meta\": {}}", {"__err__": "shape"}),
+                       ("{\"a\": \"1\", \"b\": \"2\", \"a\": \"3\"}", None)]
+        for i, (t, want_t) in enumerate(kernel_docs):
+            ck.case("json:kernel:doc:" + t)
+            ck.count("json_kernel_facts_replayed")
+            if want_t is None:
+                if list(json.loads(t).items()) != [("a", "3"), ("b", "2")]:
+                    ck.tie_break("kernel-checked fact needs_unique_keys does not hold on the real json.loads", {"text": t, "real": json.loads(t)})
+                continue
+            real = real_json_reader_bytes(t.encode("utf-8"), tmpj, i)
+            a = model_book(drvj.results([{"op": "jsontext.loadbook", "bytes": list(t.encode("utf-8"))}])[0])
+            if not (a == real == want_t):
+                ck.tie_break("kernel-checked fact json_reader_facts does not hold on the real JSON reader", {"text": t, "kernel": want_t, "model": a, "real": real})
+    finally:
+        shutil.rmtree(tmpj, ignore_errors=True)
+    kernel_json = [("\"\\/\\u00E9\\ud83d\\uDE00\"x", {"ok": ["/é\U0001F600", "x"]}), ("\"a\nb\"", {"err": "controlChar"}), ("\"\\a\"", {"err": "invalidEscape"}),
+                   ("\"\\u12\"", {"err": "invalidUnicodeEscape"}), ("\"\\u0041", {"err": "invalidUnicodeEscape"}), ("\"\\ud83d\\uzzzz\"", {"err": "invalidUnicodeEscape"}),
+                   ("\"abc", {"err": "unterminated"})]
+    for t, want_r in kernel_json:
+        ck.case("json:kernel:" + t)
+        ck.count("json_kernel_facts_replayed")
+        if real_json_scan(t) != want_r:
+            ck.tie_break("kernel-checked fact json_string_facts does not hold on the real scanner", {"text": t, "model": want_r, "real": real_json_scan(t)})
+    lit = "a\"b\\c/\n\r\t\b\f\x00\x1f\x7fé"
+    if json.dumps(lit, ensure_ascii=False) != "\"a\\\"b\\\\c/\\n\\r\\t\\b\\f\\u0000\\u001f\x7fé\"":
+        ck.tie_break("kernel-checked fact json_string_facts (the literal) does not hold on the real json.dumps", {"real": json.dumps(lit, ensure_ascii=False)})
+
+    if ck.strata.get("json_writer_text_differs_same_value"):
+        ck.notes.append("to_json no longer writes the text the model writes (json.dumps(book, ensure_ascii=False, indent=2)) but the same JSON value in another "
+                        "representation: json_file_roundtrip then speaks about the model's text only; the model reader agrees with the real reader on the real text "
+                        "(%d outputs)" % ck.strata["json_writer_text_differs_same_value"])
     # self-check of the generator's reach (exit 2, not a violation)
     need = ["split_over_two_inputs", "cell_newline", "cell_comma", "cell_quote", "cell_astral", "cell_empty", "cell_lead_eq_or_apostrophe", "compiled_ok",
-            "sanitize:ok", "sanitize:allNoneHeaders", "sanitize:noHeaders", "readjson:invalidDimensions", "readjson:ok", "tojson:dup_headers"]
+            "sanitize:ok", "sanitize:allNoneHeaders", "sanitize:noHeaders", "readjson:invalidDimensions", "readjson:ok", "tojson:dup_headers",
+            "csv_grid:lone_empty_field", "csv_grid:empty_record", "csv_grid:cell_cr", "csv_grid:outside_guard(LF,minimal,CR in cell)", "csv_text:blank_record",
+            "csv_text:field_with_line_end", "csv_file:cell_cr", "csv_file:cell_crlf", "csv_file:cell_quote", "csv_file:mutated:invalidDimensions",
+            "csv_file:mutated:decode", "csv_file:mutated:other_sheet", "csv_utf8:rejected", "csv_utf8:decodes",
+            "json_enc:escapes", "json_enc:verbatim", "json_scan:ok", "json_scan:controlChar", "json_scan:invalidEscape", "json_scan:invalidUnicodeEscape",
+            "json_scan:unterminated", "json_scan:lone_surrogate_unrepresentable", "json_doc_text:ok", "json_doc_text:error", "json_doc_file:read_ok",
+            "json_doc_file:syntax_error", "json_doc_file:shape", "json_doc_file:invalidDimensions", "json_doc_file:decode", "json_bytes_through_model_dump",
+            "json_bytes_through_model_load"]
     missing = [k for k in need if not ck.strata.get(k)]
     clean = not ck.violations and not ck.tie_breaks      # never let the self-check mask a failure
     if missing and clean:
@@ -1101,6 +1951,7 @@ def run(ck: core.Check):
         fold(ck, par.pmap(read_worker, core.shard(seeds(2000), par.NPROC * 2)), "search_read_workbooks")
         fold(ck, par.pmap(compile_worker, core.shard(seeds(600), par.NPROC * 2)), "search_compile_workbooks")
         fold(ck, par.pmap(direct_worker, core.shard(seeds(20000), par.NPROC)), "search_direct_cases")
+        fold(ck, par.pmap(csv_file_worker, core.shard(seeds(4000), par.NPROC)), "search_csv_files")
 
 
 def replay(path):
